@@ -163,11 +163,76 @@ def shard(ctx):
                 elif len(ctx.res.samples) < 2 and exp == "PASS":
                     ctx.sample({"clause": ctext, "lhs": x, "rhs": y, "tool": got, "oracle": exp})
 
+    # ---- random operands beyond the fixed universe (both tiers; volume by tier): random 64-bit integers and their neighbours, random
+    #      doubles (bit patterns), random unicode strings and their prefixes; same oracle
+    import struct
+    r0 = ctx.rng("randpairs")
+
+    def rand_int():
+        k = r0.random()
+        if k < 0.3:
+            return r0.randint(I64MIN, I64MAX)
+        if k < 0.6:
+            return r0.choice([2 ** 53, -(2 ** 53), 2 ** 62, I64MAX, I64MIN, 10 ** 15, 0]) + r0.randint(-3, 3) if True else 0
+        return r0.randint(-1000, 1000)
+
+    def rand_float():
+        while True:
+            f = struct.unpack("<d", struct.pack("<Q", r0.getrandbits(64)))[0] if r0.random() < 0.5 else r0.choice([0.1, 1.5, 1e15, 2.0 ** 53, 1e-300, 123.456]) * r0.choice([1, -1, 3, 1 + 2 ** -52])
+            if math.isfinite(f):
+                return f
+
+    def rand_str():
+        alphabet = "abAB01 zé日ß\u0301"
+        base = "".join(r0.choice(alphabet) for _ in range(r0.randint(0, 5)))
+        return base if r0.random() < 0.7 else base + r0.choice(["", "a", "\u0000"[:0], "é"])
+    gens = [rand_int, rand_float, rand_str]
+    nrand = 12 if ctx.quick else 1500
+    for t in range(nrand):
+        vals, cases = {}, []
+        for pi in range(12):
+            gx = r0.choice(gens)
+            x = gx()
+            y = r0.choice([gx(), gx(), x, r0.choice(gens)()])
+            if isinstance(x, int) and not isinstance(x, bool) and not (I64MIN <= x <= I64MAX):
+                x = I64MAX
+            if isinstance(y, int) and not isinstance(y, bool) and not (I64MIN <= y <= I64MAX):
+                y = I64MIN
+            if isinstance(y, float) and y == 0 and math.copysign(1, y) < 0:
+                y = 0.0
+            vals["a%d" % pi], vals["b%d" % pi] = x, y
+            for op in ["==", "<", "<=", ">", ">="]:
+                neg = r0.random() < 0.5
+                forms = ["q"] + (["l"] if gen.lit_spellable(y) else [])
+                for form in forms:
+                    lhs, rhs = "a%d" % pi, ("b%d" % pi if form == "q" else gen.glit(y))
+                    ctext = ("%s %s %s" % (lhs, "!=" if neg else "==", rhs)) if op == "==" else ("%s%s %s %s" % ("not " if neg else "", lhs, op, rhs))
+                    cases.append(("r%d" % len(cases), ctext, expected(op, neg, x, y), x, y, form, op, neg))
+        doc = json.dumps(vals)
+        if json.loads(doc) != vals:
+            continue            # a float that does not survive the JSON round trip exactly: not a statement about the tool
+        st, res, text = run_file(ctx, [(c[0], c[1]) for c in cases], doc)
+        if st is None:
+            ctx.inconclusive("random-pairs-file-error")
+            continue
+        for name, ctext, exp, x, y, form, op, neg in cases:
+            ctx.res.cases += 1
+            got = st.get(name)
+            ctx.res.counts["random_operand_clauses"] += 1
+            if exp is None or got is None:
+                continue
+            ctx.res.distinct.add(("random", op, neg, form, tclass(x), tclass(y), got))
+            if got != exp:
+                same = tclass(x) == tclass(y)
+                sig = "cmp:%s%s:%s:%s" % ("not-" if neg else "", op, {"q": "query-rhs", "l": "literal-rhs"}[form], ("same-type-" + tclass(x)) if same else "cross-type")
+                ctx.violation(sig, "clause `%s` with lhs=%s rhs=%s: tool=%s oracle=%s" % (ctext, gen.jdump(x), gen.jdump(y), got, exp),
+                              {"kind": "pair", "rules": "rule r {\n    %s\n}\n" % ctext, "data": doc, "expected": exp})
+
     # ---- in [..] : X in [v1..vn] iff X equals some vi   (scalars, literal lists)
     rng = ctx.rng("in")
     scal = [k for k, v in enumerate(U) if tclass(v) not in ("list", "map") and gen.lit_spellable(v)]
     allscal = [k for k, v in enumerate(U) if tclass(v) not in ("list", "map")]
-    nin = 40 if ctx.quick else 400
+    nin = 40 if ctx.quick else 4000
     for t in range(nin):
         cases = []
         for _ in range(20):
